@@ -522,6 +522,19 @@ def generate(ctx):
                         if depth == 0 and (fp != bytes(4) or idx != 0):
                             continue
                         ctx.run("abs_on_imported", [ci, bytes(range(ci, ci + 32)), depth, fp, idx, pub], "imported")
+    # ---- the deepest paths BIP-32 allows (depth is one byte): 254, 255 and 256 elements, parsed and derived
+    for n_el in (254, 255, 256):
+        els = [str(rng.choice([0, 1, 7, 44])) + rng.choice(["", "'"]) for _ in range(n_el)]
+        for pre in ("m/", ""):
+            ctx.run("bip32_parse", [pre + "/".join(els)], "depth-%d" % n_el)
+    for ci, n_el in ((0, 255), (2, 255), (0, 256), (3, 254)):
+        seed = bytes(rng.randrange(256) for _ in range(32))
+        path = [(HARD if ci in (2, 3) else 0) + rng.choice([0, 1, 2]) for _ in range(n_el)]
+        cut = rng.choice([0, 1, 100, n_el])
+        ctx.run("derive_compose", [ci, seed, False, path[:cut], path[cut:]], "depth-%d" % n_el)
+        ctx.run("derive_spelling", [ci, seed, [Bip32Path(path, True).ToStr(), Bip32Path(path, False).ToStr(),
+                                               "m/" + "/".join(("%d'" % (i - HARD)) if i >= HARD else str(i) for i in path)]],
+                "depth-%d" % n_el)
     # ---- compositionality, parent unchanged, absolute-on-child, spelling independence: direct checks
     n_tr = ctx.n(60, 1500)
     for t in range(n_tr):
